@@ -380,3 +380,25 @@ func (p *Program) knownPure(key string) bool {
 	}
 	return false
 }
+
+// methodOf: the concrete method that a call of interface method m dispatches to when the
+// dynamic type is t (nil when it cannot be determined or has no body in the program).
+func (p *Program) methodOf(t types.Type, m *types.Func) *ssa.Function {
+	if types.IsInterface(t) {
+		return nil
+	}
+	ms := p.ssaProg.MethodSets.MethodSet(t)
+	sel := ms.Lookup(m.Pkg(), m.Name())
+	if sel == nil {
+		return nil
+	}
+	fn := p.ssaProg.MethodValue(sel)
+	if fn == nil {
+		return nil
+	}
+	p.ensureBuilt(fn)
+	if fn.Blocks == nil {
+		return nil
+	}
+	return fn
+}
